@@ -1523,7 +1523,7 @@ def oracle_c04(run, ops, impl):
 
 
 PROPS["C04"] = {
-    "modules": ["NibiruProofs.C04", "NibiruProofs.SDBNested", "NibiruProofs.SDBObs", "NibiruProofs.SDBWF", "NibiruProofs.SDBTx"],
+    "modules": ["NibiruProofs.C04", "NibiruProofs.SDBNested", "NibiruProofs.SDBObs", "NibiruProofs.SDBWF", "NibiruProofs.SDBTx", "NibiruProofs.SDBFlush"],
     "fact_obligations": ["fact_C04_onRunStart_sequence"],
     "runs": [{"model": "sdb", "n_quick": 400, "n_thorough": 8000, "nontrivial": r"^P:ACC="}],
     "oracle": oracle_c04,
